@@ -141,6 +141,9 @@ type State struct {
 	steps   int
 	doneChan  map[string]string // channel term -> context term (results of ctx.Done())
 	ctxDone   map[string]bool   // contexts whose Done channel was received from on this path
+	elemsDone   map[string]string // row|off -> named row for which the elems axioms were already assumed on this path (copy on write)
+	skipStable  bool // the instruction being executed havocked guarded state on behalf of other threads (Cond.Wait)
+	lastRelease map[string]map[string]string // lock key -> heaps at this path's last release (copy on write)
 	gvars     map[string]Val // mutable ghost variables of the unit
 	onceDepth int
 	hashEmpty map[string]bool // hashers known to be in their initial (empty) state on this path
@@ -155,6 +158,7 @@ type heldLock struct {
 	mon  *Monitor
 	base string
 	stt  types.Type
+	snap map[string]string // heaps when the critical section began (for the monitor's stable clauses)
 }
 
 type candCheck struct {
@@ -356,13 +360,19 @@ func (st *State) heapTypingAt(name, sym, frontier string) {
 	}
 	// only scalar-valued heaps: quantified invariants over datatype-valued (slice, interface, string) selects made
 	// z3 diverge; values of those types get their invariant when they are loaded
-	if s := sortOf(t); s != "Int" {
-		return
-	}
 	if frontier == "" {
 		if f, ok := st.heaps["$alloc"]; ok {
 			frontier = f
 		}
+	}
+	if s := sortOf(t); s != "Int" {
+		// slice-valued map entries: heap closedness only
+		if s == "Slice" && strings.HasPrefix(name, "MV!") {
+			if rb := refBound("(select (select "+sym+" r!t) k!t)", t, frontier); rb != "" {
+				st.pc = append(st.pc, fmt.Sprintf("(forall ((r!t Int) (k!t %s)) (! %s :pattern ((select (select %s r!t) k!t))))", heapKeySort[name], rb, sym))
+			}
+		}
+		return
 	}
 	switch {
 	case strings.HasPrefix(name, "MV!"):
